@@ -121,6 +121,96 @@ fn check_edge_value<T: Fl>(g: &Graph<T>, a: usize, b: usize, v: [T; 3], c: &mut 
     }
 }
 
+/// Dark colours, error relative to the colour's size: linear sources (XYZ, linear RGB, LMS) on a 6^3
+/// grid scaled by 1e-2, 1e-4, 1e-6 through every outgoing edge; ‖ΔXYZ‖∞ / ‖XYZ‖∞ against the same
+/// tolerances as the absolute comparison (which cannot see a 1e-3 relative error in a colour of size 1e-4).
+fn run_dark<T: Fl>(ctx: &Ctx, g: &Graph<T>, total: &mut Collector) {
+    let sub = format!("dark/{}/{}", g.name, T::NAME);
+    if !ctx.wants(&sub) {
+        return;
+    }
+    let n = g.n();
+    let mut c = Collector::new();
+    let (mut st, mut tr) = (0u64, 0u64);
+    let lv = [0.0, 0.13, 0.37, 0.5, 0.71, 1.0];
+    for a in 0..n {
+        let ka = g.nodes[a].kind;
+        let linear = match ka {
+            Kind::Xyz(_) | Kind::LmsVonKries(_) | Kind::LmsBradford(_) => true,
+            Kind::Rgb(s) => s.tf == pv::refmodel::tf::Tf::Linear,
+            _ => false,
+        };
+        if !linear {
+            continue;
+        }
+        for s in [1e-2, 1e-4, 1e-6] {
+            for &x in &lv {
+                for &y in &lv {
+                    for &z in &lv {
+                        if x == 0.0 && y == 0.0 && z == 0.0 {
+                            continue;
+                        }
+                        // XYZ-like sources: scale the image of the RGB grid point, so that the colour is a real one
+                        let base = match ka {
+                            Kind::Rgb(_) => [x, y, z],
+                            _ => ka.from_xyz(pv::refmodel::rgb::SRGB.to_xyz([x, y, z])),
+                        };
+                        let v = [T::from64(base[0] * s), T::from64(base[1] * s), T::from64(base[2] * s)];
+                        let v64 = to64(v);
+                        let xyz_ref = ka.to_xyz(v64);
+                        let size = xyz_ref.iter().fold(0.0f64, |m, q| m.max(q.abs()));
+                        if !(size > 0.0) || !pv::colorkind::plausible(xyz_ref) {
+                            continue;
+                        }
+                        st += 1;
+                        for b in 0..n {
+                            if a == b {
+                                continue;
+                            }
+                            let kb = g.nodes[b].kind;
+                            let Some(f) = g.unc[a][b] else { continue };
+                            if kb.is_luma() || !kb.can_represent(xyz_ref, 1e-7 * size) {
+                                continue;
+                            }
+                            // representations whose coordinates are differences of O(1) quantities even for a
+                            // black-ish colour (Lab: 500 (f(x) - f(y)) with f ~ 16/116; HWB: blackness = 1 - max)
+                            // carry an absolute, not a relative accuracy in f32 by their definition
+                            if T::NAME == "f32" && matches!(kb, Kind::Lab(_) | Kind::Lch(_) | Kind::Hwb(_) | Kind::Okhwb) {
+                                continue;
+                            }
+                            let Ok(r) = pv::catch(|| f(v)) else { continue };
+                            tr += 1;
+                            let r64 = to64(r);
+                            let xa = [xyz_ref, ka.to_xyz_alt(v64)];
+                            let xb = [kb.to_xyz(r64), kb.to_xyz_alt(r64)];
+                            let mut best = f64::NAN;
+                            for p in xa {
+                                for q in xb {
+                                    let d = max_abs_diff(p, q);
+                                    if !(d >= best) {
+                                        best = d;
+                                    }
+                                }
+                            }
+                            let e = best / size;
+                            let t = tol::<T>(&ka, &kb);
+                            if e <= t {
+                                c.ratio(&sub, e / t, || json!({"path": [g.nodes[a].name, g.nodes[b].name], "value": v64, "rel_err": e}));
+                            } else {
+                                let cls = format!("{}{}", if e.is_nan() { "NaN" } else { "finite-off" }, input_class(&ka, &kb, [xyz_ref[0] / size, xyz_ref[1] / size, xyz_ref[2] / size]));
+                                c.violation(&format!("C02/dark-relative/{}/{}/{}->{}/{}", g.name, T::NAME, g.nodes[a].name, g.nodes[b].name, cls), e, || json!({"sub": "dark", "group": g.name, "float": T::NAME, "path": [g.nodes[a].name, g.nodes[b].name], "input": hex(&v), "value": v64, "observed": {"result": r64, "relative_dxyz": pv::report::fnum(e)}, "expected": {"reference": kb.from_xyz(xyz_ref), "tol_relative": t}}));
+                            }
+                        }
+                    }
+                }
+            }
+        }
+    }
+    c.add(&sub, st, tr, tr, st);
+    total.merge(c);
+    total.exhaustive(&sub, true, "every linear source node (XYZ, LMS, linear RGB) x the 6^3 RGB grid scaled by 1e-2, 1e-4, 1e-6 x every outgoing edge; error in XYZ relative to the size of the colour");
+}
+
 fn run_graph<T: Fl>(ctx: &Ctx, g: &Graph<T>, dense: bool, grid: usize, total: &mut Collector) {
     let sub = format!("edges/{}/{}", g.name, T::NAME);
     if !ctx.wants(&sub) {
@@ -509,6 +599,16 @@ fn replay(c: &mut Collector, rep: &Value) {
             let ctx = Ctx::from_args("C02").0;
             check_matrices(&ctx, c);
         }
+        "dark" => {
+            let group = case["group"].as_str().unwrap_or("").to_string();
+            let float = case["float"].as_str().unwrap_or("").to_string();
+            let ctx = Ctx { only: Some(format!("dark/{group}/{float}")), ..Ctx::from_args("C02").0 };
+            let mut all = Collector::new();
+            with_graph!(group.as_str(), float.as_str(), |g| run_dark(&ctx, &g, &mut all));
+            let want = rep["signature"].as_str().unwrap_or("").to_string();
+            all.viol.retain(|k, _| *k == want);
+            c.merge(all);
+        }
         "curve" => {
             let group = case["group"].as_str().unwrap_or("").to_string();
             let float = case["float"].as_str().unwrap_or("").to_string();
@@ -542,6 +642,10 @@ fn real_main() -> i32 {
     check_matrices(&ctx, &mut total);
     let quick = ctx.tier == Tier::Quick;
     let (dense, grid) = if quick { (true, 9) } else { (true, 17) };
+    run_dark(&ctx, &pga::d65_f32(), &mut total);
+    run_dark(&ctx, &pgb::d65_f64(), &mut total);
+    run_dark(&ctx, &pgd::d50_f32(), &mut total);
+    run_dark(&ctx, &pgd::d50_f64(), &mut total);
     run_curves(&ctx, &pga::d65_f32(), &mut total);
     run_curves(&ctx, &pgb::d65_f64(), &mut total);
     run_curves(&ctx, &pgc::d65cyl_f32(), &mut total);
